@@ -7,11 +7,13 @@ import (
 	"log/slog"
 	"net/netip"
 	"os"
+	"path/filepath"
 	"runtime"
 	"sort"
 	"strconv"
 	"strings"
 	"sync"
+	"sync/atomic"
 	"time"
 
 	"github.com/AdguardTeam/urlfilter"
@@ -259,3 +261,46 @@ func eqStrings(a, b []string) bool {
 func joinLines(ls []string) string { return strings.Join(ls, "\n") }
 
 var _ = urlfilter.NewEngine
+
+var deploySeq atomic.Int64
+
+// deployStorage builds a storage shaped like a deployment rather than like a
+// test: the lines are spread over three lists whose ids are not ascending (9,
+// 4, 6): the first half behind a header comment, a list that holds comments
+// only, and the rest with no line terminator after its last line.  With file
+// set the two lists that hold rules are file-backed.  The second result
+// releases the files.  Whatever an engine answers over the plain one-list
+// storage it must answer over this one.
+func deployStorage(lines []string, file bool) (*filterlist.RuleStorage, func()) {
+	h := (len(lines) + 1) / 2
+	texts := []string{"! subscription\n! Title: first part\n" + joinLines(lines[:h]) + "\n", "! nothing but comments in this list\n!\n", joinLines(lines[h:])}
+	ids := []int{9, 4, 6}
+	var ls []filterlist.RuleList
+	var paths []string
+	for k, t := range texts {
+		if file && k != 1 {
+			p := filepath.Join(os.Getenv("VERIF_WORK"), fmt.Sprintf("deploy-%d-%d.txt", os.Getpid(), deploySeq.Add(1)))
+			if err := os.WriteFile(p, []byte(t), 0o644); err != nil {
+				panic(HarnessError(err.Error()))
+			}
+			paths = append(paths, p)
+			fl, err := filterlist.NewFileRuleList(ids[k], p, false)
+			if err != nil {
+				panic(HarnessError(err.Error()))
+			}
+			ls = append(ls, fl)
+			continue
+		}
+		ls = append(ls, &filterlist.StringRuleList{ID: ids[k], RulesText: t})
+	}
+	st, err := filterlist.NewRuleStorage(ls)
+	if err != nil {
+		panic(HarnessError("storage: " + err.Error()))
+	}
+	return st, func() {
+		_ = st.Close()
+		for _, p := range paths {
+			_ = os.Remove(p)
+		}
+	}
+}
